@@ -73,11 +73,15 @@ func vC10Rewire(resp *pb.Message) {
 }
 
 // vC10BigAddrs is the deterministic over-budget address list liars attach to peer index i:
-// 3000 distinct public /ip4/tcp addresses (≈ 11 bytes each on the wire: ≈ 39 KB).
+// 40 distinct valid /dns4/<1000 bytes>/tcp/443 addresses (≈ 40 KB; 8 fit the 8 KiB budget; the
+// peerstore's own cap of 64 addresses per peer is not reached).
 func vC10BigAddrs(i int) [][]byte {
-	out := make([][]byte, 0, 3000)
-	for j := 0; j < 3000; j++ {
-		out = append(out, []byte{4, byte(11 + i%200), byte(j >> 8), byte(j), 7, 6, byte(0x10 + i%16), byte(j)})
+	out := make([][]byte, 0, 40)
+	for j := 0; j < 40; j++ {
+		name := fmt.Sprintf("%03d-%03d-", i, j) + strings.Repeat(string(rune('a'+i%26)), 992)
+		b := []byte{54, byte(len(name)&0x7f) | 0x80, byte(len(name) >> 7)}
+		b = append(b, name...)
+		out = append(out, append(b, 6, 0x01, 0xbb))
 	}
 	return out
 }
@@ -94,7 +98,7 @@ type vC10Scenario struct {
 
 func TestVerif_C10_lookupcap(t *testing.T) {
 	vh.Run(t, vh.Spec{Prop: "C10", Unit: "lookupcap", Quick: 500, Thorough: 25000, CostMs: 45,
-		Rule: "PRNG networks (N 6-150, K in {1,2,3,5,8,20}, alpha/beta as C01, knowledge full/kbucket) in which 20-90% of the peers lie on FIND_NODE / GET_VALUE / GET_PROVIDERS: closer lists of 300-4000 entries (strangers, known peers, one peer repeated), self only / self first, garbage entries (empty and junk ids, undecodable addresses, 3000-address lists for known peers), other-key / keyless / valueless records, provider lists of 300-4000 entries incl. self and strangers; all replies pass marshal+unmarshal; one GetClosestPeers / FindPeer / GetValue / FindProvidersAsync per case in virtual time (10% with a deadline); oracle: the call returns within the virtual budget, no panic, every response event heard <= 2K, a returned value was sent under the requested key, addresses stored for a peer named with a 3000-address list stay within 8 KiB; non-trivial = at least one response event came from a reply carrying more than 2K closer peers (the cap had something to cut); distinct by (shape, op, liar behaviours, response order)",
+		Rule: "PRNG networks (N 6-150, K in {1,2,3,5,8,20}, alpha/beta as C01, knowledge full/kbucket) in which 20-90% of the peers lie on FIND_NODE / GET_VALUE / GET_PROVIDERS: closer lists of 300-4000 entries (strangers, known peers, one peer repeated), self only / self first, garbage entries (empty and junk ids, undecodable addresses, 40 x 1 KB address lists for known peers), other-key / keyless / valueless records, provider lists of 300-4000 entries incl. self and strangers; all replies pass marshal+unmarshal; one GetClosestPeers / FindPeer / GetValue / FindProvidersAsync per case in virtual time (10% with a deadline); oracle: the call returns within the virtual budget, no panic, every response event heard <= 2K, a returned value was sent under the requested key, addresses stored for a peer named with a 40 KB address list stay within 8 KiB; non-trivial = at least one response event came from a reply carrying more than 2K closer peers (the cap had something to cut); distinct by (shape, op, liar behaviours, response order)",
 		Clauses: []string{"operation-returns", "heard-at-most-2k", "value-from-own-key-record", "peerstore-record-bounded", "result-shape"}},
 		func(c *vh.Case) {
 			r := c.R
@@ -355,7 +359,7 @@ func vC10RunLookupCap(t *testing.T, c *vh.Case, sc vC10Scenario) {
 			order = append(order, n.Name(cause))
 		}
 	}
-	// addresses stored for peers that liars named with a 3000-address list
+	// addresses stored for peers that liars named with the 40 KB address list
 	for bt := range bigTargets {
 		id := n.IDs[bt]
 		size := 0
@@ -365,10 +369,10 @@ func vC10RunLookupCap(t *testing.T, c *vh.Case, sc vC10Scenario) {
 				continue
 			}
 			cnt++
-			size += 1 + 1 + len(a.Bytes())
+			size += 1 + 2 + len(a.Bytes())
 		}
 		if cnt > 0 {
-			c.Check(size <= pb.MaxPeerRecordSize, "peerstore-record-bounded", "peerstore holds %d addresses (%d bytes framed) for %s, every reply naming it carried the same 3000-address list", cnt, size, n.Name(id))
+			c.Check(size <= pb.MaxPeerRecordSize, "peerstore-record-bounded", "peerstore holds %d addresses (%d bytes framed) for %s, every reply naming it carried the same 40 x 1 KB address list", cnt, size, n.Name(id))
 			c.Obs("bounded_records_in_peerstore", 1)
 		}
 	}
